@@ -164,4 +164,146 @@ example : fromFlat exEnvB usep exArrS [(s "a", s "x"), (s "a", s "y")]
   simp [fromFlat, setFlat, setFields, blank, blankFields, wrap, possibles, lookup, replace, membersOf, isPrefix,
     arrayNamed, arrayRemainder, truthy, exEnvB, exArrS, Schema.name, usep, s]
 
+/-! ### without `hnodupB`: `end_to_end_narrow_partial` -/
+
+/-- **non-vacuity** of `end_to_end_narrow_partial`: the form above meets `hypsN` -/
+theorem exT_hypsN : hypsN Tables.current exEnvB exS exE exT = true := by
+  simp only [hypsN, exT_linked, Bool.true_and]
+  decide
+
+/-- … and the theorem gives the same conclusion as the evaluation above -/
+theorem exT_end_to_end_narrow :
+    ∃ ps, browserSubmit (seenOf Tables.current freshGen.ctx) (some 0) (renderForm [] exT) = .ok ps ∧
+      fromFlat exEnvB usep exS ps = prS exEnvB usep false exS exE :=
+  end_to_end_narrow_total exEnvB exS exE exT exT_hypsN
+
+/-- the bridge on this element: its own pairs, and the form's reordering of them, satisfy `HNodup` -/
+example : HNodup exEnvB usep exS (wrap (formPairs [] exT ++ uncheckedPairs [] exT)) :=
+  hypsN_hnodup exT_hypsN
+
+/-- a List of Dicts, a one-member Array and a scalar AFTER them: document order is not breadth-first
+    order, and the keys `l_0_x`, `l_1_x` collide one level down unless read as canonical paths -/
+def exNS : Schema :=
+  .dict none false .dense
+    [ .list (some (s "l")) false true 1024
+        (.dict none false .dense [ .leaf (some (s "x")) false 0, .leaf (some (s "b")) false 1 ]),
+      .array (some (s "arr")) false true (.leaf none false 0),
+      .leaf (some (s "z")) false 0 ]
+def exNE : Elem :=
+  .dict [ (s "l", .list [ .dict [ (s "x", .leaf (s "p")), (s "b", .leaf (s "1")) ],
+                          .dict [ (s "x", .leaf (s "q")), (s "b", .leaf (s "1")) ] ]),
+          (s "arr", .array [ .leaf (s "m") ]),
+          (s "z", .leaf (s "end")) ]
+def exNT : FormTree :=
+  .dict none [
+    .list (some (s "l")) [
+      .dict none [ .text (some (s "x")) (s "p") (.input (some (s "text"))) [],
+                   .bool (some (s "b")) (s "1") (s "1") [] ],
+      .dict none [ .text (some (s "x")) (s "q") (.input (some (s "text"))) [],
+                   .bool (some (s "b")) (s "1") (s "1") [] ] ],
+    .array (some (s "arr")) false [s "m"] .checkboxes [[]],
+    .text (some (s "z")) (s "end") (.input (some (s "text"))) [] ]
+
+private theorem natStr0 : natStr 0 = ['0'] := by simp [natStr]; rfl
+private theorem natStr1 : natStr 1 = ['1'] := by simp [natStr]; rfl
+
+theorem exN_linked : linked exEnvB exNS exNE exNT = true := by
+  simp [linked, embed, embedAll, memberNode, resolve, resolveMembers, resolveOne, resolveList, membersOf,
+    exNS, exNE, exNT, fnodeBeq, fnodesBeq, Schema.name, s]
+
+theorem exN_pairs : formPairs [] exNT =
+    [(s "l_0_x", s "p"), (s "l_0_b", s "1"), (s "l_1_x", s "q"), (s "l_1_b", s "1"),
+     (s "arr", s "m"), (s "z", s "end")] := by
+  simp only [exNT, formPairs, fieldPairs, slotPairs, slotName, Nat.reduceAdd, natStr0, natStr1]
+  decide
+
+theorem exN_hypsN : hypsN Tables.current exEnvB exNS exNE exNT = true := by
+  have hok : okSB exEnvB exNS exNE = true := by
+    simp only [exNS, exNE, okSB, okSAnyB, List.all_cons, List.all_nil, List.length_cons, List.length_nil,
+      Nat.reduceAdd, List.range, List.range.loop, natStr0, natStr1, Schema.name]
+    decide
+  have hf : formOk Tables.current [] exNT = true := by
+    simp only [exNT, formOk, fieldsOk, slotsOk, slotName, Nat.reduceAdd, natStr0, natStr1]
+    decide
+  have hu : (uncheckedPairs [] exNT).isEmpty = true := by
+    simp only [exNT, uncheckedPairs, uncheckedFields, uncheckedSlots, slotName, Nat.reduceAdd, natStr0, natStr1]
+    decide
+  simp only [hypsN, exN_linked, hok, hf, hu, Bool.true_and, Bool.true_or, Bool.and_true]
+  decide
+
+/-- so the browser's six pairs — in DOCUMENT order: the List first, `z` last, where `flatten()` has `z`
+    first — rebuild the element -/
+theorem exN_end_to_end :
+    fromFlat exEnvB usep exNS (formPairs [] exNT) = prS exEnvB usep false exNS exNE := by
+  obtain ⟨hl, _, _, hcan, hw, hroot, hok, henv, hs, hnar, hdrop⟩ := hypsN_unpack exN_hypsN
+  exact fromFlat_formPairs_narrow exEnvB exNS exNE exNT henv hs hw hroot hok hl hcan hnar hdrop
+
+/-! ### `narrowB`: what happens when an Array holds two members
+
+`narrowB` is the hypothesis under which C02's `order_free` applies (it is `HNodup` on the element's own
+pairs).  With two members it fails together with `hnodupB` — everything else holds — and `order_free` is
+false there (above).  The CONCLUSION still holds on the example (the form posts the members in
+member order): that is the per-key stable version of the composition, left open. -/
+
+def exArrE2 : Elem := .dict [ (s "a", .array [ .leaf (s "x"), .leaf (s "y") ]) ]
+def exArrT2 : FormTree := .dict none [ .array (some (s "a")) false [s "x", s "y"] .checkboxes [[], []] ]
+
+theorem exArr2_linked : linked exEnvB exArrS exArrE2 exArrT2 = true := by
+  simp [linked, embed, embedAll, memberNode, resolve, resolveMembers, resolveOne, resolveList, membersOf,
+    exArrS, exArrE2, exArrT2, fnodeBeq, fnodesBeq, Schema.name, s]
+
+/-- only `narrowB` (and with it `hnodupB`) fails -/
+theorem exArr2_only_narrow_fails :
+    baseHyps Tables.current exEnvB exArrS exArrE2 exArrT2 = true ∧ boolsCanonical exArrT2 = true ∧
+    uncheckedPairs [] exArrT2 = [] ∧ narrowB exArrS exArrE2 = false ∧
+    hnodupB exEnvB usep exArrS (wrap (formPairs [] exArrT2 ++ uncheckedPairs [] exArrT2)) = false ∧
+    hypsN Tables.current exEnvB exArrS exArrE2 exArrT2 = false ∧
+    hyps Tables.current exEnvB exArrS exArrE2 exArrT2 = false := by
+  simp only [baseHyps, hypsN, hyps, exArr2_linked, Bool.true_and]
+  decide
+
+/-- … while the conclusion is true of it all the same -/
+theorem exArr2_still_rebuilds :
+    fromFlat exEnvB usep exArrS (formPairs [] exArrT2) = exArrE2 := by
+  have : formPairs [] exArrT2 = [(s "a", s "x"), (s "a", s "y")] := by decide
+  rw [this]
+  simp [fromFlat, setFlat, setFields, blank, blankFields, wrap, possibles, lookup, replace, membersOf, isPrefix,
+    arrayNamed, arrayRemainder, truthy, exEnvB, exArrS, exArrE2, Schema.name, usep, s]
+
+/-- `hyps` is strictly weaker than `hypsN`: a pruning Array holding `['', 'x']` contributes ONE surviving
+    pair; `hnodupB` sees that, the state-level `narrowB` does not -/
+def exArrE3 : Elem := .dict [ (s "a", .array [ .leaf [], .leaf (s "x") ]) ]
+def exArrT3 : FormTree := .dict none [ .array (some (s "a")) false [[], s "x"] .checkboxes [[], []] ]
+
+theorem exArr3_linked : linked exEnvB exArrS exArrE3 exArrT3 = true := by
+  simp [linked, embed, embedAll, memberNode, resolve, resolveMembers, resolveOne, resolveList, membersOf,
+    exArrS, exArrE3, exArrT3, fnodeBeq, fnodesBeq, Schema.name, s]
+
+theorem exPrunedArr_hyps :
+    hyps Tables.current exEnvB exArrS exArrE3 exArrT3 = true ∧
+    hypsN Tables.current exEnvB exArrS exArrE3 exArrT3 = false := by
+  simp only [hypsN, hyps, exArr3_linked, Bool.true_and]
+  decide
+
+/-- the two-member Array through the stable composition: both hereditary conditions hold of it -/
+theorem exArr2_via_stable :
+    fromFlat exEnvB usep exArrS (formPairs [] exArrT2) = prS exEnvB usep false exArrS exArrE2 := by
+  have hb := exArr2_only_narrow_fails.1
+  simp only [baseHyps, Bool.and_eq_true] at hb
+  obtain ⟨⟨⟨⟨⟨⟨⟨hl, _⟩, _⟩, hw⟩, hroot⟩, hok⟩, henv⟩, hns⟩ := hb
+  have henv' := envOKB_sound exEnvB henv
+  have hfl : flatten exEnvB usep exArrS exArrE2 = [(s "a", s "x"), (s "a", s "y")] := by
+    simp [flatten, flattenNode, resolve, resolveMembers, resolveOne, resolveList, membersOf, bfsFlat, childItems,
+      kidsFrom, namePath, joinSep, FNode.fl, FNode.cfl, FNode.u, FNode.name, FNode.kids, FNode.slots, exArrS,
+      exArrE2, usep, s, Schema.name]
+  have hfp : formPairs [] exArrT2 = [(s "a", s "x"), (s "a", s "y")] := by decide
+  apply fromFlat_formPairs_stable exEnvB exArrS exArrE2 exArrT2 henv' (namesSafe_sound exEnvB exArrS henv' hns)
+    (by rw [← wfS_eq]; exact hw) hroot (okSB_sound exEnvB exArrS exArrE2 hok) (fnodeBeq_sound _ _ hl)
+  · rw [hfl]
+    simp only [exArrS, HNodupA, HNodupAFields, and_true]
+  · rw [hfl, hfp]
+    simp only [exArrS, ASame, ASameFields, and_true]
+    decide
+  · decide
+
 end Flatland.EndToEnd.Proofs
